@@ -445,6 +445,63 @@ void run_closed_client(Judge& j, uint64_t n) {
     }
 }
 
+// ------------------------------------------------------------------------------------------------ C11: the connection lock below the client
+// Drives the library's autoconnect_stream directly: concurrent read / write / shutdown triggers, slow and silent handshakes,
+// connection losses, cancellation of individual operations (hence of individual lock waiters) and cancel-all.
+void run_stream_level(Judge& j, uint64_t n) {
+    const FamilyCtx& ctx = j.ctx;
+    for (uint64_t i = 0; i < n; ++i) {
+        if (int(i % ctx.nshards) != ctx.shard) continue;
+        vu::Rng rng(ctx.seed * 524287 + i * 8191 + 7);
+        bool probe = (i % 2) == 1;   // every other scenario drives reconnect_op itself, with waiters that can be cancelled one by one
+        Scenario sc; sc.family = probe ? "c11-reconnect-op" : "c11-stream"; sc.seed = ctx.seed; sc.index = i; sc.stream_mode = probe ? 2 : 1; sc.auto_receive = false;
+        sc.ccfg.brokers = rng.chance(1, 3) ? "b0.sim,b1.sim" : "b0.sim";
+        int na = (int)rng.range(1, 5);
+        for (int k = 0; k < na; ++k) {
+            AttemptPlan a;
+            switch (rng.below(5)) {
+                case 0: a.tcp_delay = (vt)rng.range(20 * MS, 900 * MS); break;       // slow TCP connect
+                case 1: a.hs = AttemptPlan::hs_silent; break;                        // 5 s handshake window
+                case 2: a.tcp = AttemptPlan::tcp_hang; break;
+                case 3: a.tcp = AttemptPlan::tcp_refused; break;
+                default: a.tcp_delay = (vt)rng.range(1 * MS, 50 * MS); break;
+            }
+            sc.attempts.push_back(a);
+        }
+        sc.default_attempt.tcp_delay = (vt)rng.range(1 * MS, 300 * MS);
+        sc.bcfg.ack_delay_max = rng.chance(1, 2) ? (vt)rng.range(1 * MS, 400 * MS) : 0;
+        Action o; o.kind = Action::s_open; o.at = 0; sc.script.push_back(o);
+        int nops = (int)rng.range(3, 12);
+        vt span = (vt)rng.range(1 * SEC, 8 * SEC);
+        for (int k = 0; k < nops; ++k) {
+            Action a; a.at = (vt)rng.range(0, span); a.with_slot = rng.chance(2, 3);
+            if (probe) { a.kind = Action::s_trigger; sc.script.push_back(a); continue; }
+            switch (rng.below(5)) {
+                case 0: case 1: a.kind = Action::s_read; a.timeout_ms = rng.chance(1, 2) ? -1 : (long long)rng.range(300, 6000); break;
+                case 2: case 3: a.kind = Action::s_write; a.payload = std::string("\xC0\x00", 2); break;
+                default: a.kind = Action::s_shutdown; break;
+            }
+            sc.script.push_back(a);
+        }
+        // cancel individual operations (their lock waits, connects, reads...) at instants close to their initiation
+        int nsig = (int)rng.below(4);
+        for (int k = 0; k < nsig; ++k) {
+            Action g; g.kind = Action::signal; g.target = (int)rng.range(1, nops); g.sig = rng.pick(std::vector<SigType>{SigType::terminal, SigType::partial, SigType::total});
+            g.at = sc.script[g.target].at + (vt)rng.range(0, 600 * MS);
+            sc.script.push_back(g);
+        }
+        int nk = (int)rng.below(3);
+        for (int k = 0; k < nk; ++k) { Action x; x.kind = Action::net_kill; x.at = (vt)rng.range(100 * MS, span); x.ec = (int)rng.below(6); sc.script.push_back(x); }
+        if (rng.chance(1, 3)) { Action c; c.kind = Action::s_cancel; c.at = (vt)rng.range(0, span); sc.script.push_back(c); }
+        sc.end = span + 25 * SEC;
+        vu::set_case(sc.family + " index=" + std::to_string(i));
+        auto ex = execute(sc);
+        j.judge(sc, *ex);
+        j.res.count("stream_level_scenarios");
+        for (auto& op : ex->world->h.ops) if (op.signalled) j.res.count("stream_ops_cancelled_individually");
+    }
+}
+
 // ------------------------------------------------------------------------------------------------ C01: spurious acknowledgements at quiescent points
 // Soundness rule: a forged ack is indistinguishable from a real one once the PUBLISH is in flight, so forged acks are sent only
 // when nothing is outstanding, no broker byte is undelivered and no client write is pending, for the id the next request will get.
@@ -647,10 +704,16 @@ void run_c15(Judge& j, uint64_t extra_random) {
         sub("$share/grp/{tag}t", true, {}, shared_ok ? 0 : 110);
         { ref::Props p; ref::Prop x; x.id = 0x0B; x.num = 7; p.push_back(x); sub("idf", false, p, shared_ok ? 0 : 109); }
         // DISCONNECT with properties larger than the limit: properties are dropped, not refused
-        if (mps && rng.chance(1, 2)) {
-            Action d; d.kind = Action::disconnect; d.at = t + 2 * SEC; d.rc = 0; ref::Prop u; u.id = 0x1F; u.s1 = std::string(mps + 10, 'r'); d.props.push_back(u);
+        if (mps && rng.chance(2, 3)) {
+            Action d; d.kind = Action::disconnect; d.at = t + 2 * SEC; d.rc = rng.chance(1, 2) ? 0 : 4;
+            int shape = (int)rng.below(3);   // Reason String only / User Properties only / both
+            if (shape != 1) { ref::Prop u; u.id = 0x1F; u.s1 = std::string(shape == 0 ? mps + 10 : 8, 'r'); d.props.push_back(u); }
+            if (shape != 0) for (int q = 0; q < 3; ++q) { ref::Prop u; u.id = 0x26; u.s1 = "key" + std::to_string(q); u.s2 = std::string(mps / 2 + 5, 'v'); d.props.push_back(u); }
+            if (rng.chance(1, 3)) { ref::Prop u; u.id = 0x11; u.num = 30; d.props.push_back(u); }
             sc.script.push_back(d);
         }
+        // the capabilities must be honoured whichever way the handshake went
+        if (rng.chance(1, 3)) { sc.ccfg.use_authenticator = true; sc.ccfg.auth_method = "SIM-AUTH"; sc.broker_auth_rounds = (int)rng.below(2); }
         sc.end = t + 10 * SEC;
         vu::set_case(sc.family + " combo=" + std::to_string(combo));
         auto ex = execute(sc);
@@ -1011,7 +1074,8 @@ int run_families(const FamilyCtx& ctx, vu::Result& res) {
     } else if (P == "C11") {
         Knobs k = knobs_for("c11-mix");
         run_mix(j, k, "c11-mix", T ? 150000 : 3000);
-        run_idle_sweep(j, T ? 20 : 3, T ? 150 : 60, {0, 3});
+        run_idle_sweep(j, T ? 20 : 3, T ? 150 : 60, {0, 3}, T ? 300 : 100, {0});
+        run_stream_level(j, T ? 150000 : 4000);
     } else if (P == "C12") {
         run_c12(j, T ? 100000 : 2000);
     } else if (P == "C15") {
